@@ -24,20 +24,22 @@ TECHNIQUE = (
 )
 LEVEL_TEXT = (
     "Lean theorems: (1) the declared length of a sliced axis equals the number of positions Python indexing selects, "
-    "for every axis length and start/stop/step; selected positions in range; rejection iff step 0; (2) collapse rules: "
-    "stacked iff allowed and all shapes equal one plain shape (size preserved), twice-nested rejected; (3) for every "
-    "accepted linear operator expression (all classes, any depth): matrix_shape = (size out, size in) = shape of the "
-    "denoted matrix, eval/adj return arrays of exactly the declared sizes, __call__ evaluates an array iff its shape is "
-    "input_shape, adj iff output shape (and dtype) match; result_type lattice laws.  The models are tied to "
+    "for every axis length and start/stop/step; selected positions in range; rejection iff step 0; indexed_shape (the "
+    "loop as written) = NumPy basic indexing for every shape and every index tuple of ints/slices/None with at most one "
+    "Ellipsis, rejections included; (2) collapse rules: stacked iff allowed and all shapes equal one plain shape (size "
+    "preserved), twice-nested rejected; (3) for every accepted linear operator expression (all classes, any depth): "
+    "matrix_shape = (size out, size in) = shape of the denoted matrix, eval/adj return arrays of exactly the declared "
+    "sizes, __call__ evaluates an array iff its shape is input_shape, adj iff output shape (and dtype) match; (4) declared "
+    "dtype = returned dtype (forward and adjoint) for every expression whose generic sums / Operator compositions agree "
+    "in dtype - in particular for every dtype-uniform expression; result_type lattice laws.  The models are tied to "
     "slice_length / indexed_shape / collapse_shapes / shape_to_size and to the metadata of real operator objects."
 )
 LEVEL_NOTE = (
     "Trusted: Lean kernel + Mathlib (axioms propext, Classical.choice, Quot.sound); CPython slice.indices/range and NumPy "
-    "basic indexing (the model is checked against them on every case); jax dtype promotion (table validated every run). "
-    "Not theorems: indexed_shape = NumPy indexing for tuples with None/Ellipsis (full statement kept as "
-    "C12_indexedShape_spec_stmt, tied exhaustively on small scopes); declared dtype = returned dtype of derived operators "
-    "(the model computes both, the tie compares both with the code; it is false for operands of different dtypes - "
-    "recorded findings mixed-operand-dtypes, adj-dtype-check-mixed); stacks/freeze/Function metadata (oracle only)."
+    "basic indexing (the model and its specification are checked against them on every case); jax dtype promotion (table "
+    "validated every run). Excluded by an explicit hypothesis of the dtype theorem (and false for the code): operands of "
+    "different dtypes in a generic sum / Operator composition - recorded findings mixed-operand-dtypes, "
+    "adj-dtype-check-mixed. Not theorems: freeze/Function metadata (oracle only)."
 )
 PROP_MODULES = ["Scico.Props.C12"]
 EXTRA_TARGETS = ["Drv.Shape", "Drv.OpAlg"]
@@ -415,6 +417,10 @@ def _part2(ctx):
                             bad += 1
             if bad >= 10:
                 break
+        # stacks with a Lean model: declared shapes / dtypes / plain-vs-block, rejection kinds
+        import opalg_stacks as S
+
+        S.model_tie(ctx, env, om, ctx.n(40, 500))
     finally:
         om.close()
 
